@@ -146,3 +146,20 @@ pub fn normalise_msg(m: &str) -> String {
     }
     out
 }
+
+static LAST_PROGRESS: std::sync::Mutex<Option<std::time::Instant>> = std::sync::Mutex::new(None);
+
+/// Tell the parent that a long case is still making progress (at most one line per second). A case
+/// that hangs inside one operation stops calling this, so the hang detector keeps working.
+pub fn progress() {
+    let mut g = LAST_PROGRESS.lock().unwrap_or_else(|e| e.into_inner());
+    let now = std::time::Instant::now();
+    if g.map(|t| now.duration_since(t).as_millis() >= 1000).unwrap_or(true) {
+        *g = Some(now);
+        use std::io::Write;
+        let out = std::io::stdout();
+        let mut o = out.lock();
+        let _ = writeln!(o, "P");
+        let _ = o.flush();
+    }
+}
